@@ -1042,3 +1042,165 @@ func ruleNLayer(w *World, r *Report, shift *ssa.Function) {
 		r.add("STENCIL", fn+" / box minus origin", pos, Discharged, "all 7 non-zero sign patterns reach the shift of every input ID; the origin is skipped")
 	}
 }
+
+// ---------------------------------------------------------------- THRESHOLD-AXIS (line voxeliser)
+
+// ruleThresholdAxis: each termination threshold handed to the midpoint
+// recursion depends on the zoom of one axis only (the altitude threshold on
+// vZoom, the lon/lat thresholds on hZoom): enumerated over the four
+// combinations of the two zoom tests.
+func ruleThresholdAxis(w *World, r *Report) {
+	r.Rule("THRESHOLD-AXIS", "every termination threshold passed to the midpoint recursion is selected by the zoom of a single axis: for fixed vZoom region the altitude threshold is the same whatever hZoom is, and vice versa (enumeration of the 2x2 zoom regions over the CFG); a threshold that depends on both zooms makes the recursion stop early for one axis at high zoom of the other")
+	fn := "shape.GetExtendedSpatialIdsOnLine"
+	f := lookupByName(w, fn)
+	if f == nil {
+		r.add("THRESHOLD-AXIS", fn, "?", Unresolved, "function not found")
+		return
+	}
+	pos := w.Pos(f.Pos())
+	// the recursion call: a module function of the same package with float parameters that calls itself
+	var rc *ssa.Call
+	instrs(f, func(in ssa.Instruction) {
+		c, ok := in.(*ssa.Call)
+		if !ok || calleeOf(c) == nil || !w.InModule(calleeOf(c)) {
+			return
+		}
+		g := calleeOf(c)
+		if len(callsTo(g, func(x *ssa.Function) bool { return x == g })) > 0 {
+			rc = c
+		}
+	})
+	if rc == nil {
+		r.add("THRESHOLD-AXIS", fn, pos, Info, "no call of a recursive helper found")
+		return
+	}
+	e := scFor(w)
+	n := 0
+	for ai, a := range rc.Call.Args {
+		if !isFloatType(a.Type()) {
+			continue
+		}
+		// where is the threshold selected: here (a phi) or in a private helper (result #ri of H(hZoom, vZoom))?
+		g := f
+		hp, vp := 2, 3
+		var phi *ssa.Phi
+		ri := -1
+		switch x := resolve(a).(type) {
+		case *ssa.Phi:
+			phi = x
+		case *ssa.Extract:
+			hc, ok := x.Tuple.(*ssa.Call)
+			if !ok || calleeOf(hc) == nil || !w.InModule(calleeOf(hc)) || calleeOf(hc).Blocks == nil {
+				continue
+			}
+			g, ri = calleeOf(hc), x.Index
+			hp, vp = -1, -1
+			for i, arg := range hc.Call.Args {
+				if resolve(arg) == ssa.Value(f.Params[2]) {
+					hp = i
+				}
+				if resolve(arg) == ssa.Value(f.Params[3]) {
+					vp = i
+				}
+			}
+			if hp < 0 || vp < 0 {
+				continue
+			}
+		default:
+			continue // a constant threshold
+		}
+		gcuts := map[int][]float64{}
+		for _, blk := range g.Blocks {
+			_, _, ifi := ifSuccs(blk)
+			if ifi == nil {
+				continue
+			}
+			c, ok := ifi.Cond.(*ssa.BinOp)
+			if !ok {
+				continue
+			}
+			for _, pi := range []int{hp, vp} {
+				if resolve(c.X) == ssa.Value(g.Params[pi]) {
+					if k, ok := constFloat(c.Y); ok {
+						gcuts[pi] = append(gcuts[pi], k)
+					}
+				}
+			}
+		}
+		gregions := func(pi int) [][2]float64 {
+			pts := append([]float64{}, gcuts[pi]...)
+			if len(pts) == 0 {
+				return [][2]float64{{0, 35}}
+			}
+			sort.Float64s(pts)
+			out := [][2]float64{}
+			lo := 0.0
+			for _, p := range pts {
+				out = append(out, [2]float64{lo, p - 1})
+				lo = p
+			}
+			return append(out, [2]float64{lo, 35})
+		}
+		n++
+		key := fmt.Sprintf("%s / threshold argument #%d", fn, ai)
+		depends := map[int]bool{}
+		und := false
+		for _, fixed := range []int{hp, vp} {
+			other := hp + vp - fixed
+			for _, fr := range gregions(fixed) {
+				var seen ssa.Value
+				for _, or := range gregions(other) {
+					c1 := &simCtx{e: e, f: g, sc: scenario{Kind: scRegion, Param: fixed, Lo: fr[0], Hi: fr[1]}}
+					c2 := &simCtx{e: e, f: g, sc: scenario{Kind: scRegion, Param: other, Lo: or[0], Hi: or[1]}}
+					orc := func(v ssa.Value) (bool, bool) {
+						if o, k := c1.oracle(v); k {
+							return o, true
+						}
+						return c2.oracle(v)
+					}
+					var val ssa.Value
+					uniq := false
+					if phi != nil {
+						val, uniq = phiValueUnder(g, phi, orc)
+					} else {
+						reach := simulate(g.Blocks[0], nil, orc)
+						cnt := 0
+						for _, ret := range returnsOf(g) {
+							if reach[ret.Block()] && ri < len(ret.Results) {
+								cnt++
+								val = ret.Results[ri]
+							}
+						}
+						uniq = cnt == 1
+						if uniq {
+							if p2, isPhi := resolve(val).(*ssa.Phi); isPhi {
+								val, uniq = phiValueUnder(g, p2, orc)
+							}
+						}
+					}
+					if !uniq {
+						und = true
+						continue
+					}
+					val = resolve(val)
+					if seen == nil {
+						seen = val
+					} else if !sameValue(seen, val) {
+						depends[other] = true
+					}
+				}
+			}
+		}
+		switch {
+		case und:
+			r.add("THRESHOLD-AXIS", key, w.Pos(rc.Pos()), Info, "the threshold is not selected by comparisons of the zoom parameters with constants only")
+		case depends[hp] && depends[vp]:
+			r.add("THRESHOLD-AXIS", key, w.Pos(rc.Pos()), Violated, "the threshold depends on both hZoom and vZoom: for one axis at high zoom the other axis' fine threshold is not applied")
+		default:
+			r.add("THRESHOLD-AXIS", key, w.Pos(rc.Pos()), Discharged, "threshold selected by the zoom of one axis only")
+		}
+	}
+	if n == 0 {
+		r.add("THRESHOLD-AXIS", fn, pos, Info, "no zoom-dependent threshold argument")
+	}
+}
